@@ -842,7 +842,20 @@ Definition e2e_obs (x : e2e) : e2e :=      (* 200 ms later: timers have fired *)
   let b := e2e_step (e_b x) 200 ENone in
   mkE a b (e_closed x || node_dead a || node_dead b).
 (* one slot: the op at +100 after the previous observation, the observation 200 later *)
-Definition e2e_slot (x : e2e) (tag a : N) : e2e * N :=
+(* mode (= tr / 3): 0 the substreams are those of the keep-alive user protocol; 1..3 they are
+   requests of a request-response protocol with main name /c09/rr/2 and fallback name /c09/rr/1:
+     1 both nodes know both names (negotiated over the main name), requests go from node 0 to node 1
+     2 the requester (node 0) only knows the legacy name: the RESPONDER accepts the inbound substream
+       over its FALLBACK name
+     3 requests go from node 1 to node 0, the responder (node 0) only knows the legacy name: the
+       REQUESTER's outbound substream is negotiated over its fallback name
+   In these modes op 1 = the requester sends a request (held by both: by the requester until the
+   answer, by the responder until it answers), op 2 = the responder answers its oldest pending
+   request (both let go), whoever `a` says. *)
+Definition e2e_slot (mode : N) (x : e2e) (tag a0 : N) : e2e * N :=
+  let req := if mode =? 3 then 1 else 0 in
+  let a := if mode =? 0 then a0 else if tag =? 1 then req else if tag =? 2 then 1 - req else a0 in
+  let tag := if (0 <? mode) && (tag =? 3) then 0 else tag in
   let own (y : e2e) := if a =? 0 then e_a y else e_b y in
   let oth (y : e2e) := if a =? 0 then e_b y else e_a y in
   let put (mine other : st) := if a =? 0 then (mine, other) else (other, mine) in
@@ -861,7 +874,8 @@ Definition e2e_slot (x : e2e) (tag a : N) : e2e * N :=
           | _ => (fst m1, e2e_step (oth x) 100 ENone, 1)
           end
       | 2 =>
-          (e2e_step (own x) 100 (EDropSub 1), e2e_step (oth x) 100 ENone,
+          (e2e_step (own x) 100 (EDropSub 1),
+           e2e_step (oth x) 100 (if (0 <? mode) && (0 <? ch_held_of 1 (s_chans (own x))) then EDropSub 1 else ENone),
            if 0 <? ch_held_of 1 (s_chans (own x)) then 0 else 1)
       | 3 =>
           (e2e_step (own x) 100 (EShutSub 1), e2e_step (oth x) 100 ENone,
@@ -870,26 +884,26 @@ Definition e2e_slot (x : e2e) (tag a : N) : e2e * N :=
       end in
     let '(na, nb) := put mine other in
     (e2e_obs (mkE na nb (node_dead na || node_dead nb)), rc).
-Fixpoint e2e_run (x : e2e) (ops : list (N * N)) : list N :=
+Fixpoint e2e_run (mode : N) (x : e2e) (ops : list (N * N)) : list N :=
   match ops with
   | [] => []
   | (tag, a) :: t =>
-      let '(x', rc) := e2e_slot x tag a in
-      [rc; b2n (e_closed x'); b2n (e_closed x')] ++ e2e_run x' t
+      let '(x', rc) := e2e_slot mode x tag a in
+      [rc; b2n (e_closed x'); b2n (e_closed x')] ++ e2e_run mode x' t
   end.
-Definition decode_ecase (l : list N) : option (N * list (N * N)) :=
+Definition decode_ecase (l : list N) : option (N * N * list (N * N)) :=
   match pall (let* kind := pN in let* T := pN in let* ping := pN in let* tr := pN in
               let* ops := plist (let* tag := pN in let* a := pN in pret (tag, a)) in
               pret (kind, T, ping, tr, ops)) l with
   | Some (kind, T, ping, tr, ops) =>
-      if (kind =? 4) && (T mod 300 =? 100) && (300 <? T) && (T <? 2000) && (ping <? 2) && (tr <? 3) &&
+      if (kind =? 4) && (T mod 300 =? 100) && (300 <? T) && (T <? 2000) && (ping <? 2) && (tr <? 12) &&
          forallb (fun o : N * N => (fst o <? 4) && (snd o <? 2)) ops && (N.of_nat (length ops) <? 40)
-      then Some (T, ops) else None
+      then Some (T, tr / 3, ops) else None
   | None => None
   end.
 Definition run_e2e (l : list N) : list N :=
   match decode_ecase l with
-  | Some (T, ops) => 4 :: e2e_run (e2e_init T) ops
+  | Some (T, mode, ops) => 4 :: e2e_run mode (e2e_init T) ops
   | None => [0]
   end.
 
@@ -899,18 +913,21 @@ Definition run_e2e (l : list N) : list N :=
    some node has nothing held and its last activity is T or more ago *)
 Record eo := mkEO { eo_t : N; eo_lastA : N; eo_lastB : N; eo_heldA : N; eo_heldB : N;
                     eo_closed : bool; eo_ok : bool }.
-Definition e2e_judge_slot (T : N) (o : eo) (tag a rc ca cb : N) : eo :=
+Definition e2e_judge_slot (T mode : N) (o : eo) (tag a0 rc ca cb : N) : eo :=
+  let req := if mode =? 3 then 1 else 0 in
+  let a := if mode =? 0 then a0 else if tag =? 1 then req else if tag =? 2 then 1 - req else a0 in
+  let tag := if (0 <? mode) && (tag =? 3) then 0 else tag in
   let t := eo_t o + 100 in                (* op time *)
   let did := (rc =? 0) && negb (eo_closed o) in
   let lastA := if did && (tag =? 1) then t else eo_lastA o in
   let lastB := if did && (tag =? 1) then t else eo_lastB o in
   let heldA := if did then
                  if tag =? 1 then eo_heldA o + 1
-                 else if (tag =? 2) && (a =? 0) then eo_heldA o - 1 else eo_heldA o
+                 else if (tag =? 2) && ((a =? 0) || (0 <? mode)) then eo_heldA o - 1 else eo_heldA o
                else eo_heldA o in
   let heldB := if did then
                  if tag =? 1 then eo_heldB o + 1
-                 else if (tag =? 2) && (a =? 1) then eo_heldB o - 1 else eo_heldB o
+                 else if (tag =? 2) && ((a =? 1) || (0 <? mode)) then eo_heldB o - 1 else eo_heldB o
                else eo_heldB o in
   let tobs := t + 200 in
   let idleA := (heldA =? 0) && (lastA + T <=? tobs) in
@@ -928,15 +945,15 @@ Definition e2e_judge_slot (T : N) (o : eo) (tag a rc ca cb : N) : eo :=
          else if tag =? 1 then rc =? 0
          else if tag =? 0 then rc =? 0
          else Bool.eqb (rc =? 0) (0 <? (if a =? 0 then eo_heldA o else eo_heldB o)))).
-Fixpoint e2e_judge (T : N) (o : eo) (ops : list (N * N)) (tr : list N) : bool :=
+Fixpoint e2e_judge (T mode : N) (o : eo) (ops : list (N * N)) (tr : list N) : bool :=
   match ops, tr with
   | [], [] => eo_ok o
-  | (tag, a) :: ops', rc :: ca :: cb :: tr' => e2e_judge T (e2e_judge_slot T o tag a rc ca cb) ops' tr'
+  | (tag, a) :: ops', rc :: ca :: cb :: tr' => e2e_judge T mode (e2e_judge_slot T mode o tag a rc ca cb) ops' tr'
   | _, _ => false
   end.
 Definition e2e_ok (case trace : list N) : bool :=
   match decode_ecase case, trace with
-  | Some (T, ops), 4 :: body => e2e_judge T (mkEO 200 0 0 0 0 false true) ops body
+  | Some (T, mode, ops), 4 :: body => e2e_judge T mode (mkEO 200 0 0 0 0 false true) ops body
   | None, [0] => true
   | _, _ => false
   end.
